@@ -9,6 +9,7 @@ package main
 
 import (
 	"bytes"
+	"encoding/json"
 	"fmt"
 	"io"
 	"os"
@@ -97,6 +98,17 @@ func runSelftest(repo, verif, prop string, known []KnownFinding, baseline map[st
 			continue
 		}
 		r := selftestResult{Seed: filepath.Base(d)}
+		if mb, err := os.ReadFile(filepath.Join(d, "meta.json")); err == nil {
+			var meta struct {
+				Selftest string `json:"selftest"`
+				Reason   string `json:"selftest_reason"`
+			}
+			if json.Unmarshal(mb, &meta) == nil && meta.Selftest == "skip" {
+				r.Note = "recorded as not reported: " + meta.Reason
+				out = append(out, r)
+				continue
+			}
+		}
 		t0 := time.Now()
 		func() {
 			scratch, err := os.MkdirTemp("", "govc-selftest-")
